@@ -16,6 +16,7 @@ import pandas as pd
 
 from .. import engine as E
 from .. import gen_runs as R
+from .. import loader
 from .. import runsnap as S
 
 RULE = ("generated programs incl. stateful algos (RunOnce, RunEveryNPeriods, RebalanceOverTime, LimitDeltas) and random algos (SelectRandomly, "
@@ -58,15 +59,34 @@ def canon(o, depth=0, seen=None):
     return ("other", type(o).__name__)
 
 
-def gen_case(rng):
-    spec = R.gen_run_spec(rng, T=rng.randint(6, 14))
+def gen_case(rng, estimation=False):
+    spec = R.gen_run_spec(rng, T=rng.randint(12, 18) if estimation else rng.randint(6, 14))
     # make the global-random algos really global for some cases
     spec["global_seed"] = rng.randint(0, 10 ** 6)
+    ds = pd.to_datetime(spec["dates"])
+    gap = max([1] + [int((b - a).days) for a, b in zip(ds[:-1], ds[1:])])
+    if estimation or rng.random() < 0.3:
+        # estimation-type weighers (an optimiser behind them): any of them in place of the generated weigher, at any depth
+        def swap(tr):
+            for j, d in enumerate(tr.get("stack") or []):
+                if d[0] in ("WeighEqually", "WeighInvVol", "WeighRandomly", "WeighSpecified") and (estimation or rng.random() < 0.8):
+                    tr["stack"][j] = ["WeighERC", gap * rng.randint(6, 12), gap * rng.randint(0, 1)]
+                    if rng.random() < 0.85:
+                        # the optimiser needs a few returns: wait for them (without the wait the first call raises, also a case)
+                        tr["stack"].insert(0, ["RunAfterDays", rng.randint(5, 8)])
+                    break
+            for kd in tr.get("kids") or []:
+                if isinstance(kd, dict):
+                    swap(kd)
+        swap(spec["tree"])
     k = rng.randint(2, 3)
     variants = []
     for i in range(k):
-        v = {"capital": float(rng.choice([spec["capital"], spec["capital"] * 2, 50000.0])), "same_data": rng.random() < 0.6,
+        v = {"capital": float(rng.choice([spec["capital"], spec["capital"] * 2, 50000.0])), "same_data": rng.random() < 0.5,
+             "permute": rng.random() < 0.5,
              "integer": rng.random() < 0.5, "comm": rng.choice([[0, 0, 0], [3, 0, 0.001], [1, 2.0, 0]])}
+        if estimation and i > 0:
+            v["same_data"], v["permute"] = False, True
         variants.append(v)
     order = list(range(k))
     rng.shuffle(order)
@@ -79,9 +99,29 @@ def variant_spec(spec, v, i):
     s["integer"] = v["integer"]
     s["comm"] = v["comm"]
     if not v["same_data"]:
-        for t in s["prices"]:
-            s["prices"][t] = [None if x is None else x * (1.0 + 0.125 * (i + 1)) for x in s["prices"][t]]
+        if v.get("permute"):
+            # same tickers, same dates, other histories: the price columns rotate among the tickers
+            ts = list(s["prices"])
+            cols = [s["prices"][t] for t in ts]
+            r = (i + 1) % max(len(ts), 1)
+            for j, t in enumerate(ts):
+                s["prices"][t] = list(cols[(j + r) % len(ts)])
+        else:
+            for t in s["prices"]:
+                s["prices"][t] = [None if x is None else x * (1.0 + 0.125 * (i + 1)) for x in s["prices"][t]]
     return s
+
+
+def fresh_bt(bt):
+    """another import of the same source: a copy of the package with its own module-level state (what a new interpreter would see
+    of bt itself); sys.modules is put back so the primary copy stays the one everything else uses"""
+    saved = {m: sys.modules[m] for m in list(sys.modules) if m == "bt" or m.startswith("bt.")}
+    try:
+        return loader.load_bt()
+    finally:
+        for m in [m for m in sys.modules if m == "bt" or m.startswith("bt.")]:
+            del sys.modules[m]
+        sys.modules.update(saved)
 
 
 def make_inputs(vs):
@@ -119,10 +159,12 @@ def run_case(ctx, bt, case):
     # baseline: each backtest alone, from its own fresh template
     base = []
     for i, vs in enumerate(vspecs):
-        t = R.build_strategy(bt, vs)
-        b, _, _ = make_bt(bt, t, vs)
+        fb = fresh_bt(bt)
+        ctx.count("baseline:fresh-module-copy")
+        t = R.build_strategy(fb, vs)
+        b, _, _ = make_bt(fb, t, vs)
         err = run_one(b, spec["global_seed"] + i)
-        base.append((S.node_histories(bt, b.strategy) if hasattr(b.strategy, "data") else {}, err))
+        base.append((S.node_histories(fb, b.strategy) if hasattr(b.strategy, "data") else {}, err))
     # shared template, chosen order / interleaving
     template = R.build_strategy(bt, spec)
     t_before = canon(template)
@@ -339,6 +381,20 @@ def session_protocol(ctx, bt, n):
 
 
 def run(ctx, bt, scale=1):
+    import ffn as _ffn
+    orig = _ffn.calc_erc_weights
+
+    def counted(*a, **kw):
+        ctx.count("optimiser-calls:erc")
+        return orig(*a, **kw)
+    _ffn.calc_erc_weights = counted
+    try:
+        _run(ctx, bt, scale)
+    finally:
+        _ffn.calc_erc_weights = orig
+
+
+def _run(ctx, bt, scale=1):
     for _ in range(ctx.scale(12, 200) * scale):
         ctx.evaluations += 1
         try:
@@ -349,7 +405,7 @@ def run(ctx, bt, scale=1):
         session_protocol(ctx, bt, ctx.scale(25, 400))
     specs = []
     for _ in range(ctx.scale(45, 900) * scale):
-        case = gen_case(ctx.rng)
+        case = gen_case(ctx.rng, estimation=(_ % 4 == 3))
         ctx.evaluations += 1
         if len(ctx.samples) < 2:
             ctx.sample({"tree": case["spec"]["tree"], "variants": case["variants"], "order": case["order"]})
